@@ -70,6 +70,33 @@ def build_fs(args):
         return {"kind": "mode", "cid": cid, "pdg": pdg, "fs": fs,
                 "obs": {"fs": bag(cc.daughters), "bf_same": cc.bf == bf and dm.bf == bf and type(cc.bf) is type(bf),
                         "meta_same": same(cc.metadata, before) and same(dm.metadata, before) and same(twice.metadata, before)}}
+    if kind[0] == "tree":
+        # the parse-tree layer: the visitor that CDecay uses, applied to a hand-built decay tree once and twice
+        from lark import Token, Tree
+        from decaylanguage.dec.dec import (ChargeConjugateReplacement, get_decay_mother_name,
+                                           get_final_state_particle_names)
+        mother = kind[1]
+        flat = []
+        for k, v in fs:
+            flat += [k] * v
+        rng.shuffle(flat)
+        tree = Tree("decay", [Tree("particle", [Token("LABEL", mother)]),
+                              Tree("decayline", [Tree("value", [Token("SIGNED_NUMBER", "1.0")])]
+                                   + [Tree("particle", [Token("LABEL", x)]) for x in flat]
+                                   + [Tree("model", [Token("MODEL_NAME", "PHSP")])])])
+
+        def read():
+            line = next(tree.find_data("decayline"))
+            b = {}
+            for x in get_final_state_particle_names(line):
+                b[x] = b.get(x, 0) + 1
+            return get_decay_mother_name(tree), bag(b)
+        ChargeConjugateReplacement().visit(tree)
+        m1, once = read()
+        ChargeConjugateReplacement().visit(tree)
+        m2, twice = read()
+        return {"kind": "tree", "cid": cid, "fs": fs, "mother": mother,
+                "obs": {"once": once, "twice": twice, "mother_once": m1, "mother_twice": m2}}
     # table: the CDecay route for the same decay
     mother, mbar = kind
     flat = []
@@ -168,6 +195,11 @@ def run(tier, seed, replay_path=None):
             ks = rng.sample(known_dec, rng.randint(1, 4)) + ([rng.choice([u for u in unk[:300]])] if rng.random() < 0.3 else [])
             fs = sorted([k, rng.randint(1, 4)] for k in set(ks))
             args.append((len(cases) + len(args), (m, t["evt_conj"][m]), False, fs, seed * 5 + i))
+        for i in range(1500 if deep else 200):
+            m = rng.choice(pairs)
+            ks = rng.sample(known_dec, rng.randint(1, 4))
+            fs = sorted([k, rng.randint(1, 3)] for k in set(ks))
+            args.append((len(cases) + len(args), ("tree", m), False, fs, seed * 7 + i))
         cases += pmap(build_fs, args)
         rej = judge(cases, wd, o, "judge name calls, final states, modes and CDecay tables (Conj trace)", data)
         for c in cases:
@@ -193,7 +225,8 @@ def run(tier, seed, replay_path=None):
         o.sample({"calls": cases[0]["calls"][:6]})
         o.rule = ("every EvtGen name and every PDG name under both namings and three call styles, unknown labels, in long "
                   "shuffled sequences with near and far repeats (cache cycled); random final states / decay modes with "
-                  "multiplicities 1..5 and JSON-like metadata; CDecay tables for the same decays; distinct = distinct cases")
+                  "multiplicities 1..5 and JSON-like metadata; CDecay tables for the same decays; the parse-tree visitor applied once "
+                  "and twice to hand-built decay trees; distinct = distinct cases")
         o.assumptions = ["ids and self-conjugate flags of the installed particle package are the reference (PDG-consistent = "
                          "consistent with that data)"]
     finally:
